@@ -14,6 +14,18 @@ mod tower;
 
 use mzkh::Ctx;
 
+/// Case count by tier: quick `q`, thorough `t`, search in between (wide enough to hit an
+/// oracle failure, small enough for the 5-minute budget).
+pub fn sz(ctx: &Ctx, q: usize, t: usize) -> usize {
+    if ctx.quick() {
+        q
+    } else if ctx.search() {
+        (2 * q).min(t)
+    } else {
+        t
+    }
+}
+
 fn main() {
     // child mode used by the Sum/Product-by-reference probe (a regression of an infinite recursion)
     let args: Vec<String> = std::env::args().collect();
